@@ -124,6 +124,24 @@ func runFunction(vc *VC, u *Universe, pi *PkgInfo, fc *FuncContract, fn *ssa.Fun
 			p := x.get(fr, &st, g)
 			x.storeLoc(&st, p.Loc, Value{T: types.Typ[types.Bool], K: KScalar, X: TFalse})
 		}
+		// package-level variables start zeroed
+		for _, name := range sortedKeys(pi.SSA.Members) {
+			g, ok := pi.SSA.Members[name].(*ssa.Global)
+			if !ok || name == "init$guard" {
+				continue
+			}
+			func() {
+				defer func() {
+					if r := recover(); r != nil {
+						if _, ok := r.(engineErr); !ok {
+							panic(r)
+						}
+					}
+				}()
+				p := x.get(fr, &st, g)
+				x.zeroStore(&st, p.Loc)
+			}()
+		}
 	}
 	if !isInit && pi.Contracts != nil {
 		for _, gi := range pi.Contracts.GlobalInvs {
